@@ -757,7 +757,7 @@ func linear(v ssa.Value, atomName func(ssa.Value) string, depth int) linform {
 	switch x := v.(type) {
 	case *ssa.Const:
 		if x.Value != nil {
-			return linform{atoms: map[string]int{}, k: x.Int64(), ok: true}
+			return linform{atoms: map[string]int{}, k: constInt64(x), ok: true}
 		}
 	case *ssa.BinOp:
 		if depth < 8 && (x.Op == token.ADD || x.Op == token.SUB) {
@@ -855,7 +855,7 @@ func c01PlanTiling(c *Ctx) {
 	checkEdge = func(v ssa.Value, depth int) {
 		switch x := v.(type) {
 		case *ssa.Const:
-			if x.Int64() < 1 {
+			if constInt64(x) < 1 {
 				okAdv = false
 				detail = "advance can be " + x.Value.ExactString()
 			}
@@ -879,7 +879,7 @@ func c01PlanTiling(c *Ctx) {
 				}
 				cm, truth, ok := cmpOf(iff.Cond)
 				if ok && cm.op == token.GTR && cm.x == v && truth {
-					if cst, ok := cm.y.(*ssa.Const); ok && cst.Int64() >= 0 {
+					if cst, ok := cm.y.(*ssa.Const); ok && constInt64(cst) >= 0 {
 						found = true
 					}
 				}
